@@ -74,6 +74,36 @@ end Morfuse.Archive
 
 namespace Morfuse.Archive
 
+theorem position_head_len (self : Lbl) (rest : List Item) (t' : List Lbl) :
+    8 ≤ (encItems t' (Item.position self :: rest)).2.length := by
+  simp [encItems, encItem, Prim.width]
+
+/-- every `ArchiveInternal` starts with the position record of the variable: at least 8 bytes -/
+theorem valCalls_enc_pos : (v : Value) → (t : List Lbl) → (self : Lbl) →
+    8 ≤ (encItems t (valCalls t self v).2).2.length
+  | .none, _, _ => by simp only [valCalls]; exact position_head_len _ _ _
+  | .int _, _, _ => by simp only [valCalls]; exact position_head_len _ _ _
+  | .float _, _, _ => by simp only [valCalls]; exact position_head_len _ _ _
+  | .char _, _, _ => by simp only [valCalls]; exact position_head_len _ _ _
+  | .string _, _, _ => by simp only [valCalls]; exact position_head_len _ _ _
+  | .constString none, _, _ => by simp only [valCalls]; exact position_head_len _ _ _
+  | .constString (some _), _, _ => by simp only [valCalls]; exact position_head_len _ _ _
+  | .vector _, _, _ => by simp only [valCalls]; exact position_head_len _ _ _
+  | .link _ _ _, _, _ => by simp only [valCalls]; exact position_head_len _ _ _
+  | .holderRef _ _, _, _ => by simp only [valCalls]; split <;> exact position_head_len _ _ _
+  | .pointer _ _, _, _ => by simp only [valCalls]; split <;> exact position_head_len _ _ _
+  | .array _ _ _ _ _ _, _, _ => by simp only [valCalls]; split <;> exact position_head_len _ _ _
+  | .constArray _ _ _, _, _ => by simp only [valCalls]; split <;> exact position_head_len _ _ _
+
+theorem elemCalls_enc_len : (es : List (Lbl × Value)) → (t : List Lbl) →
+    es.length ≤ (encItems t (elemCalls t es).2).2.length
+  | [], _ => by simp
+  | (s, v) :: es, t => by
+    have h1 := valCalls_enc_pos v t s
+    have h2 := elemCalls_enc_len es (valCalls t s v).1
+    simp only [elemCalls, encItems_append, valCalls_table, List.length_append, List.length_cons]
+    omega
+
 mutual
 /-- a value as the reading calls return it before `Close`: pointer slots hold archive indices -/
 def rawValue (T : List Lbl) : Value → Value
